@@ -61,7 +61,7 @@ class KeyGen:
 
 
 def gen_script(rng, tier, n_keys=None, storages=1, scans=True, dumps=True, inline_frac=0.1,
-               with_storage_ops=False, max_ops=None, phantoms=False, putinfo=False):
+               with_storage_ops=False, max_ops=None, phantoms=False, putinfo=False, iscans=False):
     """one program: create storage(s), build, probe, delete, re-insert; returns list of op lines"""
     kg = KeyGen(rng, long_tail=(tier == "thorough"))
     if n_keys is None:
@@ -179,11 +179,19 @@ def gen_script(rng, tier, n_keys=None, storages=1, scans=True, dumps=True, inlin
         ops.append("phantom %s %s" % (" ".join(a[1:]), hx(k) + " " + hx(b"ph")))
         live[nm][k] = b"ph"   # (only inserted when the driver finds it covered; the generator's view may differ)
 
+    def iscan(nm):
+        before = len(ops)
+        scan(nm)
+        a = ops.pop().split()
+        ops.append("iscan %s %s %s %s %s %d" % (a[1], a[2], a[3], a[4], a[5], int(rng.random() < 0.5)))
+
     def probe(nm, n):
         for _ in range(n):
             r = rng.random()
             ks = list(live[nm])
-            if phantoms and r < 0.5:
+            if iscans and r < 0.6:
+                iscan(nm)
+            elif phantoms and r < 0.5:
                 phantom(nm)
             elif r < 0.45:
                 k = rng.choice(ks) if ks and rng.random() < 0.7 else endpoint_key(nm)
@@ -331,6 +339,7 @@ def abstract(line):
         return None
     s = re.sub(r" mod=\S+ cre=\S+ cvp=\S+", "", line)
     s = re.sub(r" existed=.*$", "", s)
+    s = re.sub(r" end=\S+ cb=\[.*\]$", "", s)
     s = re.sub(r" nv=\[.*\]$", "", s)
     s = re.sub(r" nv=\S+$", "", s)
     return s
@@ -339,6 +348,9 @@ def abstract(line):
 def nv_part(line):
     if line is None:
         return None
+    m = re.search(r" cb=(\[.*\])$", line)
+    if m:
+        return m.group(1)
     m = re.search(r" nv=(\[.*\]|\S+)$", line)
     return m.group(1) if m else ""
 
